@@ -78,34 +78,26 @@ def rawBytesPerCluster (totalBytes : Nat) : FatType → Except Err Nat
     else if totalBytes ≤ 8 * 1073741824 then .ok 4096
     else chkMul32 ((nextPow2 totalBytes / (2 * 1073741824)) % 4294967296) 1024
 
-/-- `x.clamp(lo, 32768)` followed by `debug_assert!(is_power_of_two)` -/
+/-- `x.clamp(bps, 32768)` for `bps ≤ 32768` -/
+def clampVal (x bps : Nat) : Nat := if x < bps then bps else if 32768 < x then 32768 else x
+
+/-- `x.clamp(bps, 32768)` followed by `debug_assert!(is_power_of_two)` -/
 def clampCluster (x bps : Nat) : Except Err Nat :=
-  if 32768 < bps then .error .panic            -- `clamp` asserts min <= max
-  else
-    let c := if x < bps then bps else if 32768 < x then 32768 else x
-    if isPow2 c then .ok c else .error .panic  -- debug_assert!
+  if 32768 < bps then .error .panic                               -- `clamp` asserts min <= max
+  else if isPow2 (clampVal x bps) then .ok (clampVal x bps) else .error .panic   -- debug_assert!
 
 /-- `determine_bytes_per_cluster` -/
 def determineBytesPerCluster (totalBytes bps : Nat) (ft : Option FatType) : Except Err Nat :=
-  match rawBytesPerCluster totalBytes (ft.getD (estimateFatType totalBytes)) with
-  | .ok x => clampCluster x bps
-  | .error e => .error e
+  rawBytesPerCluster totalBytes (ft.getD (estimateFatType totalBytes)) >>= fun x => clampCluster x bps
 
 /-- `determine_sectors_per_fat`; result is `(t1 + t2 - 1) / t2 as u32` -/
 def determineSectorsPerFat (total bps spc : Nat) (ft : FatType) (reserved rds fats : Nat) : Except Err Nat :=
-  match chkSub total reserved with
-  | .error e => .error e
-  | .ok a =>
-    match chkSub a rds with
-    | .error e => .error e
-    | .ok t0 =>
-      -- t1 : u64 = t0 + 2*spc ; t2 : u64 = bits_per_cluster / bits + fats (no overflow by types)
-      match chkSub (t0 + 2 * spc + (spc * bps * 8 / ft.bits + fats)) 1 with
-      | .error e => .error e
-      | .ok num =>
-        match chkDiv num (spc * bps * 8 / ft.bits + fats) with
-        | .error e => .error e
-        | .ok q => .ok (q % 4294967296)
+  chkSub total reserved >>= fun a =>
+  chkSub a rds >>= fun t0 =>
+  -- t1 : u64 = t0 + 2*spc ; t2 : u64 = bits_per_cluster / bits + fats (no overflow by types)
+  chkSub (t0 + 2 * spc + (spc * bps * 8 / ft.bits + fats)) 1 >>= fun num =>
+  chkDiv num (spc * bps * 8 / ft.bits + fats) >>= fun q =>
+  .ok (q % 4294967296)
 
 def reservedFor (ft : FatType) : Nat := if ft = .fat32 then 8 else 1
 
@@ -117,18 +109,11 @@ def maxClusters : FatType → Nat
 
 /-- `total - reserved - rds - spf * fats` then `/ spc`, all checked (`try_fs_layout`) -/
 def layoutClusters (total spc reserved rds fats spf : Nat) : Except Err Nat :=
-  match chkMul32 spf fats with
-  | .error e => .error e
-  | .ok allFats =>
-    match chkSub total reserved with
-    | .error e => .error e
-    | .ok a =>
-      match chkSub a rds with
-      | .error e => .error e
-      | .ok b =>
-        match chkSub b allFats with
-        | .error e => .error e
-        | .ok data => chkDiv data spc
+  chkMul32 spf fats >>= fun allFats =>
+  chkSub total reserved >>= fun a =>
+  chkSub a rds >>= fun b =>
+  chkSub b allFats >>= fun data =>
+  chkDiv data spc
 
 /-- the tail of `try_fs_layout` after the cluster count is known -/
 def checkClusters (ft : FatType) (reserved spf cl : Nat) : Except Err (Nat × Nat) :=
@@ -141,12 +126,9 @@ def checkClusters (ft : FatType) (reserved spf cl : Nat) : Except Err (Nat × Na
 def tryFsLayout (total bps spc : Nat) (ft : FatType) (rds fats : Nat) : Except Err (Nat × Nat) :=
   if total ≤ reservedFor ft + rds + 8 then .error .invalidInput
   else
-    match determineSectorsPerFat total bps spc ft (reservedFor ft) rds fats with
-    | .error e => .error e
-    | .ok spf =>
-      match layoutClusters total spc (reservedFor ft) rds fats spf with
-      | .error e => .error e
-      | .ok cl => checkClusters ft (reservedFor ft) spf cl
+    determineSectorsPerFat total bps spc ft (reservedFor ft) rds fats >>= fun spf =>
+    layoutClusters total spc (reservedFor ft) rds fats spf >>= fun cl =>
+    checkClusters ft (reservedFor ft) spf cl
 
 /-- `determine_root_dir_sectors` (bps ≠ 0 here: `bytes_per_cluster / bytes_per_sector` was evaluated before) -/
 def determineRootDirSectors (rootEntries bps : Nat) (ft : FatType) : Nat :=
@@ -180,14 +162,10 @@ def effectiveBpc (o : FormatOpts) (total : Nat) : Except Err Nat :=
 
 /-- `determine_fs_layout` -/
 def determineFsLayout (o : FormatOpts) (total : Nat) : Except Err FsLayout :=
-  match effectiveBpc o total with
-  | .error e => .error e
-  | .ok bpc =>
-    match chkDiv bpc o.bps with
-    | .error e => .error e
-    | .ok spc32 =>
-      if 255 < spc32 then .error .invalidInput      -- u8::try_from
-      else tryTypes total o.bps spc32 o.rootEntries o.fats (allowedTypes o.fatType)
+  effectiveBpc o total >>= fun bpc =>
+  chkDiv bpc o.bps >>= fun spc32 =>
+  if 255 < spc32 then .error .invalidInput      -- u8::try_from
+  else tryTypes total o.bps spc32 o.rootEntries o.fats (allowedTypes o.fatType)
 
 /-! ## BPB -/
 
@@ -228,21 +206,15 @@ def FBpb.rootDirSectors (b : FBpb) : Nat := (b.rootEntries * 32 + b.bps - 1) / b
 
 /-- `first_data_sector` (checked `u32` `*` and `+`) -/
 def FBpb.firstDataSector (b : FBpb) : Except Err Nat :=
-  match chkMul32 b.fats b.sectorsPerFat with
-  | .error e => .error e
-  | .ok fatSectors =>
-    match chkAdd32 b.reserved fatSectors with
-    | .error e => .error e
-    | .ok x => chkAdd32 x b.rootDirSectors
+  chkMul32 b.fats b.sectorsPerFat >>= fun fatSectors =>
+  chkAdd32 b.reserved fatSectors >>= fun x =>
+  chkAdd32 x b.rootDirSectors
 
 /-- `total_clusters` -/
 def FBpb.totalClusters (b : FBpb) : Except Err Nat :=
-  match b.firstDataSector with
-  | .error e => .error e
-  | .ok fds =>
-    match chkSub b.totalSectors fds with
-    | .error e => .error e
-    | .ok data => chkDiv data b.spc
+  b.firstDataSector >>= fun fds =>
+  chkSub b.totalSectors fds >>= fun data =>
+  chkDiv data b.spc
 
 def fsTypeLabelOf : FatType → List Nat
   | .fat12 => [0x46, 0x41, 0x54, 0x31, 0x32, 0x20, 0x20, 0x20]
@@ -289,18 +261,14 @@ def spf16Of (l : FsLayout) : Except Err Nat :=
 
 /-- final check of `format_bpb` -/
 def checkBpbType (b : FBpb) (ft : FatType) : Except Err (FBpb × FatType) :=
-  match b.totalClusters with
-  | .error e => .error e
-  | .ok cl => if FatType.fromClusters cl ≠ ft then .error .invalidInput else .ok (b, ft)
+  b.totalClusters >>= fun cl =>
+  if FatType.fromClusters cl ≠ ft then .error .invalidInput else .ok (b, ft)
 
 /-- `format_bpb` -/
 def formatBpb (o : FormatOpts) (total : Nat) : Except Err (FBpb × FatType) :=
-  match determineFsLayout o total with
-  | .error e => .error e
-  | .ok l =>
-    match spf16Of l with
-    | .error e => .error e
-    | .ok spf16 => checkBpbType (mkBpb o total l spf16) l.fatType
+  determineFsLayout o total >>= fun l =>
+  spf16Of l >>= fun spf16 =>
+  checkBpbType (mkBpb o total l spf16) l.fatType
 
 /-! ## `BiosParameterBlock::validate` (errors are `CorruptedFileSystem`; warnings are not modelled) -/
 
@@ -331,9 +299,8 @@ def validateTotalSectors (b : FBpb) : Except Err Unit :=
   else if b.totalSectors16 = 0 ∧ b.totalSectors32 = 0 then .error .corrupted
   else if b.totalSectors16 ≠ 0 ∧ b.totalSectors32 ≠ 0 ∧ b.totalSectors16 ≠ b.totalSectors32 then .error .corrupted
   else
-    match b.firstDataSector with
-    | .error e => .error e
-    | .ok fds => if b.totalSectors ≤ fds then .error .corrupted else .ok ()
+    b.firstDataSector >>= fun fds =>
+    if b.totalSectors ≤ fds then .error .corrupted else .ok ()
 
 def validateSectorsPerFat (b : FBpb) : Except Err Unit :=
   if b.isFat32 ∧ b.spf32 = 0 then .error .corrupted else .ok ()
@@ -341,40 +308,27 @@ def validateSectorsPerFat (b : FBpb) : Except Err Unit :=
 /-- `sectors_per_fat * bytes_per_sector * 8 / bits - RESERVED_FAT_ENTRIES` in checked `u32` (only feeds a warning,
     but the arithmetic can panic) -/
 def usableFatEntries (b : FBpb) (ft : FatType) : Except Err Nat :=
-  match chkMul32 b.sectorsPerFat b.bps with
-  | .error e => .error e
-  | .ok x =>
-    match chkMul32 x 8 with
-    | .error e => .error e
-    | .ok y => chkSub (y / ft.bits) 2
+  chkMul32 b.sectorsPerFat b.bps >>= fun x =>
+  chkMul32 x 8 >>= fun y =>
+  chkSub (y / ft.bits) 2
 
 def validateTotalClusters (b : FBpb) : Except Err Unit :=
-  match b.totalClusters with
-  | .error e => .error e
-  | .ok cl =>
-    if b.isFat32 ≠ (FatType.fromClusters cl == .fat32) then .error .corrupted
-    else if FatType.fromClusters cl = .fat32 ∧ 0x0FFFFFFF < cl then .error .corrupted
-    else
-      match usableFatEntries b (FatType.fromClusters cl) with
-      | .error e => .error e
-      | .ok _ => .ok ()
-
-def andThen (a : Except Err Unit) (b : Except Err Unit) : Except Err Unit :=
-  match a with
-  | .ok () => b
-  | .error e => .error e
+  b.totalClusters >>= fun cl =>
+  if b.isFat32 ≠ (FatType.fromClusters cl == .fat32) then .error .corrupted
+  else if FatType.fromClusters cl = .fat32 ∧ 0x0FFFFFFF < cl then .error .corrupted
+  else usableFatEntries b (FatType.fromClusters cl) >>= fun _ => .ok ()
 
 /-- `BiosParameterBlock::validate` -/
 def validateBpb (b : FBpb) : Except Err Unit :=
   if b.fsVersion ≠ 0 then .error .corrupted
   else
-    andThen (validateBytesPerSector b) <|
-    andThen (validateSectorsPerCluster b) <|
-    andThen (validateReservedSectors b) <|
-    andThen (validateFats b) <|
-    andThen (validateRootEntries b) <|
-    andThen (validateTotalSectors b) <|
-    andThen (validateSectorsPerFat b) <|
+    validateBytesPerSector b >>= fun _ =>
+    validateSectorsPerCluster b >>= fun _ =>
+    validateReservedSectors b >>= fun _ =>
+    validateFats b >>= fun _ =>
+    validateRootEntries b >>= fun _ =>
+    validateTotalSectors b >>= fun _ =>
+    validateSectorsPerFat b >>= fun _ =>
     validateTotalClusters b
 
 /-! ## boot sector -/
@@ -411,9 +365,8 @@ def bootJmpFor (ft : FatType) : List Nat :=
 
 /-- `format_boot_sector` -/
 def formatBootSector (o : FormatOpts) (total : Nat) : Except Err (FBoot × FatType) :=
-  match formatBpb o total with
-  | .error e => .error e
-  | .ok (b, ft) => .ok (⟨bootJmpFor ft, oemName, b, bootCodeFor ft, [0x55, 0xAA]⟩, ft)
+  formatBpb o total >>= fun r =>
+  .ok (⟨bootJmpFor r.2, oemName, r.1, bootCodeFor r.2, [0x55, 0xAA]⟩, r.2)
 
 /-- `BootSector::validate(strict = true)` -/
 def validateBoot (boot : FBoot) : Except Err Unit :=
@@ -440,19 +393,15 @@ def FBoot.serialize (boot : FBoot) : List Nat :=
 
 /-- `format_boot_sector` then strict `validate` (any validation error → `InvalidInput`) -/
 def formatChecked (o : FormatOpts) (total : Nat) : Except Err (FBoot × FatType) :=
-  match formatBootSector o total with
-  | .error e => .error e
-  | .ok (boot, ft) =>
-    match validateBoot boot with
-    | .ok () => .ok (boot, ft)
-    | .error .panic => .error .panic
-    | .error _ => .error .invalidInput
+  formatBootSector o total >>= fun r =>
+  match validateBoot r.1 with
+  | .ok () => .ok r
+  | .error .panic => .error .panic
+  | .error _ => .error .invalidInput
 
 /-- `fatfs::verif::format_boot_sector_bytes`: boot-sector bytes and FAT width -/
 def formatBootSectorBytes (o : FormatOpts) (total : Nat) : Except Err (List Nat × FatType) :=
-  match formatChecked o total with
-  | .error e => .error e
-  | .ok (boot, ft) => .ok (boot.serialize, ft)
+  formatChecked o total >>= fun r => .ok (r.1.serialize, r.2)
 
 /-- `FormatVolumeOptions::default()` -/
 def defaultOpts : FormatOpts := {}
